@@ -1,6 +1,7 @@
 (* Props/C02.v — property theorems only.  C02: height bounds, borehole cap, unmet-design policy, exception discipline. *)
 From Coq Require Import ZArith QArith Qabs List.
 From GHE Require Import Base.QUtil gen.Src Model.Search Proof.SearchP.
+From GHE Require Import Model.RowSearch Proof.RowSearchP.
 Import ListNotations.
 Open Scope Z_scope.
 
@@ -69,6 +70,38 @@ Theorem C02_size_only_fails_on_zero :
   forall f lo hi b x, solve_root f lo hi b = Err x -> x = ZeroDivisionError /\ ((f lo == 0)%Q \/ (f hi == 0)%Q).
 Proof. exact solve_root_only_zero_division. Qed.
 Print Assumptions C02_size_only_fails_on_zero.
+
+(* ---- the RowWise design search (Model/RowSearch.rw_search, tied to RowWiseModifiedBisectionSearch.search by the stub-oracle
+   correspondence of this check): for EVERY generator / excess / sizing oracle, spacing window, step and iteration limit *)
+Theorem C02_rowwise_only_value_error :
+  forall o st sp stp cont it x, rw_search true o st sp stp cont it = Err x -> x = ValueError.
+Proof. exact rw_only_value_error. Qed.
+Print Assumptions C02_rowwise_only_value_error.
+
+Theorem C02_rowwise_unmet_is_error :
+  forall o st sp stp cont it, (0 < o_gen_excess o st)%Q -> (0 < o_gen_excess o sp)%Q -> cont = false ->
+  rw_search true o st sp stp cont it = Err ValueError.
+Proof. exact rw_unmet_is_error. Qed.
+Print Assumptions C02_rowwise_unmet_is_error.
+
+Theorem C02_rowwise_escape_only_when_unmet :
+  forall o st sp stp cont it r, rw_search true o st sp stp cont it = Ok r -> rw_escaped r = true ->
+  cont = true /\ (0 < o_gen_excess o st)%Q /\ (0 < o_gen_excess o sp)%Q /\ rw_sel r = PGen st.
+Proof. exact rw_escape_only_when_unmet. Qed.
+Print Assumptions C02_rowwise_escape_only_when_unmet.
+
+(* a design is a field together with the specifier that names it *)
+Theorem C02_rowwise_specifier_names_selection :
+  forall o st sp stp cont it r, rw_search true o st sp stp cont it = Ok r -> rw_spec r = Some (rw_sel r).
+Proof. exact rw_specifier_names_selection. Qed.
+Print Assumptions C02_rowwise_specifier_names_selection.
+
+(* the code before the two fix commits (fixed = false) is refuted on both counts: nothing selected -> TypeError; no specifier *)
+Theorem C02_rowwise_old_code_refuted :
+  rw_search false o_old1 5 10 1 false 10 = Err TypeError /\
+  (exists r, rw_search false o_old2 5 10 (5 # 4) false 3 = Ok r /\ rw_spec r = None).
+Proof. exact (conj rw_old_none_selected rw_old_no_specifier). Qed.
+Print Assumptions C02_rowwise_old_code_refuted.
 
 (* non-vacuity *)
 Example C02_nonvacuous_large :
